@@ -1288,14 +1288,30 @@ def zone_table_rule(repo, rep):
     f = m.func('geo2grid')
     ps = [p.name for p in f.params]
 
+    CUSTOM = {'gk3': (500000, 0, 1, 3, 3), 'w2.5': (500000, 10000000, F(9996, 10000), F(5, 2), F(-715, 4)),
+              # the false origin and central scale of the ISG with another zone layout (it is NOT the ISG), and three-degree strips counted
+              # from 180 W (120 zones)
+              'isg-origin': (300000, 5000000, F(99994, 100000), 2, 129), 'gk3w': (500000, 10000000, 1, 3, F(-357, 2))}
+
     def run(lon, zone, prjname):
         ev = Evaluator(repo, opaque={'psfandgridconv', 'alpha_coeff', 'rect_radius'})
-        prj = ev.global_value(mc, prjname)
+        if prjname in CUSTOM:
+            # a user-defined projection: Projection(false easting, false northing, central scale, zone width, central meridian of zone 1)
+            ev.fold_const_types = True
+            prj = ev.construct(mc.classes['Projection'], [C(x_) for x_ in CUSTOM[prjname]], {}, None)
+        else:
+            prj = ev.global_value(mc, prjname)
         ell = ev.global_value(mc, 'ans' if prjname == 'isg' else 'grs80')
         try:
             val = ev.call_function(f, {ps[0]: C(F(-335, 10)), ps[1]: C(lon), ps[2]: C(zone), 'ellipsoid': ell, 'prj': prj})
+        except IndexError as e_:
+            # constant folding of the function's own string indexing went out of range: the call raises IndexError
+            return 'IndexError', str(e_)
         except Exception:
             return None, None
+        if any(d_[2] == 'subscript of Str' for d_ in ev.diagnostics):
+            # a character of a constant string is asked for beyond its end (str(zone)[2] of a two-digit zone)
+            return 'IndexError', 'string index out of range at %s' % [d_[1] for d_ in ev.diagnostics if d_[2] == 'subscript of Str'][0]
         cm = None
         for caller, callee, b, node in ev.calls:
             if callee == 'psfandgridconv' and caller == 'geo2grid':
@@ -1326,13 +1342,26 @@ def zone_table_rule(repo, rep):
         cm = (a - 1) * 6 - 180 + 2 * sub - 1
         for dl in (F(6, 10), F(-7, 10), F(17, 10)):
             cases.append(('isg', F(cm) + dl, z, F(z), F(cm)))
+    # user-defined projections (odd and fractional zone widths): automatic zone = the strip whose central meridian is within half a zone
+    # width of the longitude (longitudes east of zone 1, away from strip boundaries)
+    for pn_ in sorted(CUSTOM):
+        zw_, icm_ = F(CUSTOM[pn_][3]), F(CUSTOM[pn_][4])
+        for off_ in (F(-14, 10), F(-2, 10), F(14, 10)):
+            for k_ in (0, 1, 3, 17, 110):
+                cm_ = icm_ + k_ * zw_
+                lon_ = cm_ + off_ * zw_ / 3
+                if -180 <= lon_ < 180:
+                    cases.append((pn_, lon_, 0, F(k_ + 1), cm_))
     for prjname, lon, zarg, zwant, cmwant in cases:
         key = 'R-TABLE::geodepy/convert.py::geo2grid::zone-cm(%s,lon=%s,zone=%s)' % (prjname, float(lon), zarg)
         z, cm = run(lon, zarg, prjname)
         w = where(f, f.node)
-        if z is None or cm is None:
+        if z == 'IndexError':
+            rep.violated('R-TABLE', key, w, 'geo2grid(lat, %s, zone=%s, prj=%s) raises IndexError (%s): the zone label is indexed as if it were a three-digit ISG zone - the projection is '
+                         'taken for the ISG although it is another one' % (float(lon), zarg, prjname, cm), expected='zone %s, cm %s' % (zwant, cmwant), actual='IndexError')
+        elif z is None or cm is None:
             rep.undecided('R-TABLE', key, w, 'zone / central meridian do not fold to numbers for these constant arguments')
-        elif (z == zwant and cm == cmwant) or (zarg == 0 and _strip_ok(prjname, lon, z, cm)):
+        elif (z == zwant and cm == cmwant) or (zarg == 0 and prjname in ('utm', 'isg') and _strip_ok(prjname, lon, z, cm)):
             rep.holds('R-TABLE', key, w, '%s: longitude %s, zone argument %s -> zone %s, central meridian %s' % (prjname, float(lon), zarg, z, cm))
         else:
             rep.violated('R-TABLE', key, w, 'geo2grid(lat, %s, zone=%s, prj=%s) uses zone %s with central meridian %s; the %s the longitude lies in is zone %s with central meridian %s' % (
